@@ -33,7 +33,7 @@ Obs(r) ==
    poolA |-> Fn(Range(r.pool), LAMBDA h : h.id, LAMBDA h : h.addr),
    polE |-> {[id |-> h.id, addr |-> h.addr] : h \in Range(r.pol)},
    down |-> {h.id : h \in {x \in Range(r.hosts) : ~x.up}},
-   served |-> Range(r.served), refreshes |-> r.refreshes, panic |-> r.panic]
+   served |-> Range(r.served), refreshes |-> r.refreshes, panic |-> r.panic, stuck |-> r.stuck]
 DOf(o) == [hosts |-> o.hosts, byAddr |-> o.byAddr, hlist |-> o.hlist, pool |-> DOMAIN o.poolA,
            pol |-> {e.id : e \in o.polE}, down |-> o.down]
 
@@ -69,6 +69,10 @@ StepOf(r, g0, d0) ==
                    IN <<DoRefreshG(g1, r.rows, filt),
                         ApplyRefresh(StartFill(d0, C0id, g0.reach \cup {r.addr}), r.rows, filt, g0.reach \cup {r.addr}), 1>>
               ELSE <<[g0 EXCEPT !.reach = @ \cup {r.addr}], d0, 0>>
+       [] r.op = "heal" -> <<[g0 EXCEPT !.reach = @ \cup {C0addr}], d0, 0>>
+       [] r.op = "reconnect" ->
+            <<DoRefreshG(GhostControlBack(g0), r.rows, filt),
+              ApplyRefresh(StartFill(d0, C0id, g0.reach), r.rows, filt, g0.reach), 1>>
        [] r.op = "ctllost" ->
             <<DoRefreshG(GhostControlBack(g0), r.rows, filt),
               ApplyRefresh(StartFill(d0, C0id, g0.reach), r.rows, filt, g0.reach), 1>>
